@@ -123,7 +123,13 @@ def build_type(d):
         k, v = d["dict"]
         return type("D", (dict, Rule), dict(d.get("cons") or {}))[build_type(k), build_type(v)]
     if "opt" in d:
+        if d.get("typing"):          # the typing spelling becomes a Rule whose origin is the union (rule.py parse_annotation)
+            import typing
+            return typing.Optional[build_type(d["opt"])]
         return LogicalType.combine("|", build_type(d["opt"]), None)
+    if "comb" in d and d.get("typing") and d["comb"] == "|":
+        import typing
+        return typing.Union[tuple(build_type(x) for x in d["args"])]
     if "comb" in d:
         # what the operators & | ^ ~ of Rule classes call (rule.py:293-318); also takes plain classes such as bool
         return LogicalType.combine(d["comb"], *[build_type(x) for x in d["args"]])
@@ -139,6 +145,7 @@ def build_field(f):
         kw["required"] = False
     if f.get("on_error"):
         kw["on_error"] = f["on_error"]
+    kw.update(f.get("fcons") or {})       # constraints declared on the field: validators of the wrapping Rule
     return Field(**kw)
 
 
@@ -563,7 +570,7 @@ def gen_ty(rng, depth=2):
             d["cons"] = {rng.choice(["min_length", "max_length"]): rng.choice([1, 2])}
         return d
     if k < 0.74:
-        return {"opt": gen_ty(rng, depth - 1)}
+        return {"opt": gen_ty(rng, depth - 1), "typing": rng.random() < 0.5}
     if k < 0.765:
         fs = []
         for name in ["p", "q"][:rng.choice([1, 2])]:
@@ -579,7 +586,10 @@ def gen_ty(rng, depth=2):
     if op == "~":
         return {"comb": "~", "args": [gen_ty(rng, depth - 1)]}
     n = rng.choice([2, 2, 3])
-    return {"comb": op, "args": [gen_ty(rng, depth - 1) for _ in range(n)]}
+    d = {"comb": op, "args": [gen_ty(rng, depth - 1) for _ in range(n)]}
+    if op == "|" and rng.random() < 0.4:
+        d["typing"] = True
+    return d
 
 
 def gen_val(rng, ty, good=True, depth=3):
@@ -697,6 +707,16 @@ def gen_case(rng, api=None):
             f["default"] = None
         if rng.random() < 0.2:
             f["on_error"] = rng.choice(POLICIES if not f["required"] else ["throw", "preserve"])
+        if rng.random() < 0.08:
+            # a union of int/str scalars with a bound declared on the field: Rule[AnyOf(...)](ge=..)
+            ints = [{"t": "int"}, {"rule": "int", "cons": {rng.choice(["gt", "ge"]): rng.choice([0, 1, 5])}}]
+            args = [rng.choice(ints), rng.choice(ints + [{"rule": "str", "cons": {"max_length": rng.choice([1, 3])}}])]
+            if rng.random() < 0.5:
+                args.reverse()
+            f["ty"] = rng.choice([{"comb": "|", "args": args, "typing": True}, {"opt": rng.choice(ints), "typing": True}])
+            f["fcons"] = {rng.choice(["ge", "le", "gt", "lt"]): rng.choice([0, 3, 7])}
+            if "default" in f:
+                f["default"] = gen_val(rng, f["ty"], good=True)
         decl.append(f)
     o = {"addition": rng.choice(["unset", "unset", False, False, True]), "dfs": rng.choice([None, False, True, True])}
     if api == "schema" and rng.random() < 0.04:
@@ -833,6 +853,21 @@ class C10(Check):
         model_outs = [None] * len(cases)
         for i, o in zip(idx, outs):
             model_outs[i] = o
+        if not hasattr(self, "_stats"):          # the main sweep (the search, if any, comes later)
+            parse = [(c, io, mo) for c, io, mo in zip(cases, impl_outs, model_outs) if c.get("kind") == "parse" and isinstance(io, dict)]
+            self._stats = {
+                "parse_cases": len(parse),
+                "ctx_cases": sum(1 for c in cases if c.get("kind") == "ctx"),
+                "modelled": sum(1 for _, io, mo in parse if "resolved" in io),
+                "outside_model_fragment_spec_only": sum(1 for _, io, _ in parse if "unmodelled" in io),
+                "illegal_declaration_skipped": sum(1 for _, io, _ in parse if "config_error" in io),
+                "prim_miss": sum(1 for _, _, mo in parse if isinstance(mo, dict) and mo.get("miss")),
+                "rejected_inputs": sum(1 for _, io, _ in parse if "runs" in io and "ok" not in io["runs"][0]),
+                "accepted_inputs": sum(1 for _, io, _ in parse if "runs" in io and "ok" in io["runs"][0]),
+                "runs_on_real_code": sum(len(io["runs"]) + len(io["alone"]) for _, io, _ in parse if "runs" in io),
+            }
+            self._samples = [{"case": c, "implementation": {k: v for k, v in io.items() if k != "tables"}, "model": mo}
+                             for c, io, mo in parse if "resolved" in io and failing_items(io)][5:7]
         return impl_outs, model_outs
 
     def model_line2(self, case, io):
@@ -961,6 +996,8 @@ class C10(Check):
         return out
 
     def finish_evidence(self, ev, tier):
+        ev["coverage"]["stats"] = getattr(self, "_stats", {})
+        ev["coverage"]["samples"] = getattr(self, "_samples", []) + ev["coverage"]["samples"]
         if tier == "thorough":
             ev["coverage"]["exhaustive_part"] = ("every assignment of {valid, invalid, missing} to 3 fields x required/default "
                                                  "x excess key x addition x lookup strategy x {Schema, function}")
